@@ -1,0 +1,115 @@
+//go:build verif
+
+package ssh
+
+// Verification hooks for property C27 (interoperability). Add-only: with the verif
+// tag off this file is not compiled, and with it on nothing changes until a check
+// calls VerifC27TapKex. The tap wraps the kexAlgoMap entries with a pass-through
+// that reports each completed key exchange (H and the encoded K that feed
+// generateKeyMaterial) to the check's passive decoder; it never alters a result.
+
+import (
+	"crypto"
+	"errors"
+	"io"
+	"sync"
+)
+
+// VerifC27KexInfo describes one completed key exchange half.
+type VerifC27KexInfo struct {
+	Name     string
+	IsServer bool
+	// Conn identifies the transport the exchange ran on (same value for every
+	// exchange of one connection side); Index counts exchanges on it from 0.
+	Conn  any
+	Index int
+	H, K  []byte
+	Hash  crypto.Hash
+	Err   error
+}
+
+type verifC27Tap struct {
+	name string
+	kex  kexAlgorithm
+}
+
+var (
+	verifC27Mu    sync.Mutex
+	verifC27Count = map[packetConn]int{}
+	verifC27CB    func(VerifC27KexInfo)
+)
+
+func verifC27Report(name string, isServer bool, p packetConn, r *kexResult, err error) {
+	verifC27Mu.Lock()
+	idx := verifC27Count[p]
+	verifC27Count[p] = idx + 1
+	cb := verifC27CB
+	verifC27Mu.Unlock()
+	if cb == nil {
+		return
+	}
+	info := VerifC27KexInfo{Name: name, IsServer: isServer, Conn: p, Index: idx, Err: err}
+	if r != nil {
+		info.H = append([]byte{}, r.H...)
+		info.K = append([]byte{}, r.K...)
+		info.Hash = r.Hash
+	}
+	cb(info)
+}
+
+func (t *verifC27Tap) Client(p packetConn, rand io.Reader, magics *handshakeMagics) (*kexResult, error) {
+	r, err := t.kex.Client(p, rand, magics)
+	verifC27Report(t.name, false, p, r, err)
+	return r, err
+}
+
+func (t *verifC27Tap) Server(p packetConn, rand io.Reader, magics *handshakeMagics, s AlgorithmSigner, algo string) (*kexResult, error) {
+	r, err := t.kex.Server(p, rand, magics, s, algo)
+	verifC27Report(t.name, true, p, r, err)
+	return r, err
+}
+
+// VerifC27TapKex installs the pass-through on every kexAlgoMap entry (once) and
+// sets the callback. Call it before any connection is started.
+func VerifC27TapKex(cb func(VerifC27KexInfo)) {
+	verifC27Mu.Lock()
+	defer verifC27Mu.Unlock()
+	verifC27CB = cb
+	for name, k := range kexAlgoMap {
+		if _, ok := k.(*verifC27Tap); ok {
+			continue
+		}
+		kexAlgoMap[name] = &verifC27Tap{name: name, kex: k}
+	}
+}
+
+// VerifC27Forget drops the per-connection exchange counter of conn.
+func VerifC27Forget(conn any) {
+	if p, ok := conn.(packetConn); ok {
+		verifC27Mu.Lock()
+		delete(verifC27Count, p)
+		verifC27Mu.Unlock()
+	}
+}
+
+// VerifC27RequestKeyExchange asks the transport of c (a Conn returned by
+// NewClientConn or NewServerConn) to start a key exchange, as the rekey
+// thresholds do.
+func VerifC27RequestKeyExchange(c Conn) error {
+	var cc *connection
+	switch v := c.(type) {
+	case *connection:
+		cc = v
+	case *ServerConn:
+		cc, _ = v.Conn.(*connection)
+	}
+	if cc == nil {
+		return errors.New("verif: not a *connection")
+	}
+	ht, ok := cc.transport.(*handshakeTransport)
+	if !ok {
+		return errors.New("verif: transport is not a handshakeTransport")
+	}
+	ht.requestKeyExchange()
+	return nil
+}
